@@ -85,6 +85,29 @@ func GenModSet(rng *rand.Rand, nConflicts int) *ModSet {
 			fl.Types = append(fl.Types[:pos], append([]Type{et}, fl.Types[pos:]...)...)
 		}
 	}
+	// bare `extend type T` blocks (no relations): legal, contribute nothing - also next to a
+	// relation-less definition of T in the same file
+	for _, t := range src.Types {
+		if rng.Intn(5) != 0 {
+			continue
+		}
+		f := rng.Intn(nf)
+		if rng.Intn(2) == 0 && ms.fileOfType(t.Name) >= 0 {
+			f = ms.fileOfType(t.Name)
+		}
+		already := false
+		for _, x := range ms.Files[f].Types {
+			if x.Extend && x.Name == t.Name {
+				already = true
+			}
+		}
+		if already {
+			continue
+		}
+		fl := ms.Files[f]
+		pos := rng.Intn(len(fl.Types) + 1)
+		fl.Types = append(fl.Types[:pos], append([]Type{{Name: t.Name, Extend: true}}, fl.Types[pos:]...)...)
+	}
 	for _, cd := range src.Conds {
 		f := rng.Intn(nf)
 		ms.Files[f].Conds = append(ms.Files[f].Conds, cd)
